@@ -64,8 +64,8 @@ TEXT = {
  'C01': dict(
   level='Machine-checked theorems (Coq). COMPOSED STATEMENT (C01_election_safety): over the cluster transition system of Model/Cluster.v - any number of servers in any well-formed start state, their candidate loops and RPC handlers (the node model tied to the code), '
         'a network that executes a vote request late, repeatedly or never and delivers at most one answer per runCandidate invocation and peer, any other RPC / stray vote request / TimeoutNow / restart at any server, store failures and crash cuts inside the handlers - '
-        'no run has two servers become leader of the same term, for elections held under one configuration. Ingredients also stated separately: at most one vote per term per server over ANY history (C06), majorities of one and of two successive configurations intersect, quorumSize is a strict majority. '
-        'PARTIAL: elections that straddle a membership change are not in the composed theorem (adjacent-majority intersection is proved; the composition is not); pre-vote rounds are abstracted (they only gate electSelf, C14); store failures inside electSelf are covered at node level, not in the composed system. '
+        'no run has two servers become leader of the same term, for elections held under one configuration and for elections that straddle one membership change (held under either of two successive configurations: C01_election_safety_across_membership_change). Ingredients also stated separately: at most one vote per term per server over ANY history (C06), majorities of one and of two successive configurations intersect, quorumSize is a strict majority. '
+        'PARTIAL: chains of several uncommitted membership changes are not covered (the code serialises changes, C07); pre-vote rounds are abstracted (they only gate electSelf, C14); store failures inside electSelf are covered at node level, not in the composed system. '
         'Tie: election scripts on REAL 2-5 server clusters (every RequestVote held until the script delivers the request and, separately, the answer; lost answers, stray requests, restarts, injected AppendEntries) diffed state-by-state against the composed model; node sequences; real-cluster election races with monitors.',
   note='Trusted: Coq kernel; harness (scripted transport, stores); the transport contract stated in Model/Cluster.v (one answer per call) - checked only in so far as the election scripts exercise it.',
   technique='Coq proof (cluster invariant: tally witnesses + per-voter functional grant tables + quorum intersection, by induction over runs) + differential election scripts on real clusters + node sequences + monitored election races',
